@@ -79,6 +79,8 @@ def mutate_templates():
     src = ['fn t(n, v) {', '    print(n)', '    return v', '}', 'xs := []', 'if t(1, @b0@) {', '    print(10)', '} else if t(2, @b1@) {', '    print(20)', '} else if t(3, @b2@) {', '    print(30)', '} else {', '    print(40)', '}',
            'if xs == [] {', '    print("empty")', '} else if xs[0] == 1 {', '    print("one")', '}', 'i := 0', 'while t(4, i < 2) {', '    i += 1', '}']
     ts.append({'name': 'if-chain-effects', 'src': '\n'.join(src) + '\n'})
+    # `for` over a range written in place: positions count from 0 whatever the first item is
+    ts.append({'name': 'for-over-range', 'src': 'lo := @h0@\nfor [i, n] in lo .. lo + 3 {\n    print(i * 100 + n)\n}\nfor [i, n] in 5 .. 8 {\n    print(i)\n    print(n)\n}\nr := 2 .. 4\nfor [i, n] in r {\n    print(i + n)\n}\nfor p in 7 .. 9 {\n    print(p)\n}\nfor [i, n] in @h1@ .. 2 {\n    print(n - i)\n}\n', 'assume': lambda v: [v['h0'] >= -3, v['h0'] <= 3, v['h1'] >= 0, v['h1'] <= 3]})
     # an empty branch is still the branch taken
     src = ['fn t(n, v) {', '    print(n)', '    return v', '}', 'if t(1, @b0@) {', '} else if t(2, @b1@) {', '    print(20)', '} else {', '    print(30)', '}', 'if @b2@ {', '    # only a comment', '} else if @b0@ {', '} else {', '    print(40)', '}',
            'for [i, v] in [1, 2, 3] {', '    if v == 2 {', '    } else {', '        continue', '    }', '    print(v)', '}', 'print(0)']
